@@ -124,6 +124,8 @@ pub enum BodyRule {
     /// response to HEAD / OPTIONS: there must be no body bytes at all (Content-Length may
     /// describe the GET body for HEAD)
     Bodiless,
+    /// response to OPTIONS: no body, and a Content-Length (if any) must say 0
+    BodilessZero,
 }
 
 /// Parse and validate. Every complaint is a separate string with a stable prefix
@@ -241,9 +243,16 @@ pub fn parse_response(raw: &[u8], rule: BodyRule) -> Result<Resp, Vec<String>> {
                 }
             }
         }
-        BodyRule::Bodiless => {
+        BodyRule::Bodiless | BodyRule::BodilessZero => {
             if !resp.body.is_empty() {
                 errs.push(format!("body: {} body bytes on a bodiless response", resp.body.len()));
+            }
+            if rule == BodyRule::BodilessZero {
+                if let Some(n) = cl_n {
+                    if n != 0 {
+                        errs.push(format!("framing: Content-Length {} on a response that carries no body (OPTIONS)", n));
+                    }
+                }
             }
         }
     }
